@@ -30,6 +30,10 @@ type c05case struct {
 	Cipher  []byte `json:"cipher"`  // the section as laid out in the file (hex text or binary)
 	Trailer []byte `json:"trailer"` // clear text after the section
 	Gap     []byte `json:"gap"`     // white space between `eexec` and the section
+	// Second: a second eexec section after the trailer of the first (file
+	// form), and its plaintext equivalent for the comparison run
+	Second      []byte `json:"second,omitempty"`
+	SecondPlain []byte `json:"second_plain,omitempty"`
 	// Payloads are the binary strings the plaintext reads with readstring, in
 	// order; each is left on the operand stack
 	Payloads [][]byte `json:"payloads,omitempty"`
@@ -64,6 +68,7 @@ func check(c *c05case) string {
 	a.Write(c.Gap)
 	a.Write(c.Cipher)
 	a.Write(c.Trailer)
+	a.Write(c.Second)
 
 	var b bytes.Buffer
 	b.Write(c.Pre)
@@ -77,6 +82,7 @@ func check(c *c05case) string {
 	}
 	b.WriteString("\n")
 	b.Write(c.Trailer)
+	b.Write(c.SecondPlain)
 
 	sb, errB := stateOf(b.Bytes())
 	if errB != nil {
@@ -180,7 +186,7 @@ func pairsCovered() int {
 func TestP1Eexec(t *testing.T) {
 	rec := ev.New("C05", "eexec")
 	defer rec.Finish(t)
-	rec.Rule("plaintext: probes that observe systemdict on the dictionary stack (`/eexecprobe 42 def`, `currentdict /add known`), a data program from the C02 generator run inside `userdict begin`, 0-3 binary payloads read with `n string currentfile exch readstring <sep><n bytes> pop` or through an RD procedure `n RD <sep><n bytes>` (one separator byte, then n arbitrary bytes, n up to 1500 so that sections straddle the scanner's 512-byte buffer), optionally dictionaries left on the dictionary stack; ending in `mark currentfile closefile` + one white-space byte (then clear-text trailer: 0-600 zeros in lines, cleartomark, further tokens) or running to the end of input. Encrypted by the harness cipher; the four leading cipher bytes are drawn (any for hex; for binary: first byte not white space and one of the four not a hex digit, corner values included); laid out as hex (digit case per digit, white space of all kinds at any position after the first four digits, any line width) or binary; 0-3 white-space bytes between `eexec` and the section; clear text before the section padded so that the section starts at any offset, half of the time within 12 bytes of a multiple of 512 (the scanner's buffer size). Oracle: same interpreter fed `pre systemdict begin <plaintext> [mark] end... <trailer>`: canonical state (stack incl. the strings read, dict stack, userdict, additions to systemdict, FontDirectory, resources) equal and both runs without error; and, absolutely, every payload is among the strings the encrypted run leaves on the operand stack, byte for byte and in order (a CR separator directly followed by a payload starting with LF is not generated: whether CR LF counts as one separator there is not settled by the references). Non-trivial: section >= 20 plaintext bytes and one of {binary form, interior white space, upper-case hex, payload with a byte < 32 or >= 128, trailer executed after closefile}; distinct by file bytes.")
+	rec.Rule("plaintext: probes that observe systemdict on the dictionary stack (`/eexecprobe 42 def`, `currentdict /add known`), a data program from the C02 generator run inside `userdict begin`, 0-3 binary payloads read with `n string currentfile exch readstring <sep><n bytes> pop` or through an RD procedure `n RD <sep><n bytes>` (one separator byte, then n arbitrary bytes, n up to 1500 so that sections straddle the scanner's 512-byte buffer), optionally dictionaries left on the dictionary stack; ending in `mark currentfile closefile` + one white-space byte (then clear-text trailer: 0-600 zeros in lines, cleartomark, further tokens) or running to the end of input; in a quarter of the cases with a trailer a second eexec section (hex or binary, own prefix, with a readstring payload) follows in the same stream. Encrypted by the harness cipher; the four leading cipher bytes are drawn (any for hex; for binary: first byte not white space and one of the four not a hex digit, corner values included); laid out as hex (digit case per digit, white space of all kinds at any position after the first four digits, any line width) or binary; 0-3 white-space bytes between `eexec` and the section; clear text before the section padded so that the section starts at any offset, half of the time within 12 bytes of a multiple of 512 (the scanner's buffer size). Oracle: same interpreter fed `pre systemdict begin <plaintext> [mark] end... <trailer>`: canonical state (stack incl. the strings read, dict stack, userdict, additions to systemdict, FontDirectory, resources) equal and both runs without error; and, absolutely, every payload is among the strings the encrypted run leaves on the operand stack, byte for byte and in order (a CR separator directly followed by a payload starting with LF is not generated: whether CR LF counts as one separator there is not settled by the references). Non-trivial: section >= 20 plaintext bytes and one of {binary form, interior white space, upper-case hex, payload with a byte < 32 or >= 128, trailer executed after closefile}; distinct by file bytes.")
 	rec.Assume("decryption correctness is independent of the library: the cipher text comes from the harness implementation of the Adobe algorithm (t1ref.Encrypt, key 55665, c1 52845, c2 22719)")
 	cfg := psgen.Config{TypeLiteral: true}
 	ev.SetupRapid(60000, 1500000)
@@ -359,6 +365,30 @@ func TestP1Eexec(t *testing.T) {
 			}
 			c.Trailer = tr.Bytes()
 			feat = append(feat, "trailer-after-closefile")
+			if rapid.IntRange(0, 3).Draw(t, "second") == 0 {
+				// a second section in the same stream (decryption starts afresh)
+				feat = append(feat, "second-section")
+				body := "/second (two) def /third 3 def 5 string currentfile exch readstring \x80\x00(\xff) pop mark currentfile closefile\n"
+				var c4b [4]byte
+				for i := range c4b {
+					c4b[i] = byte(rapid.IntRange(0, 255).Draw(t, "c4b"))
+				}
+				var sec bytes.Buffer
+				sec.WriteString("currentfile eexec\n")
+				if rapid.Bool().Draw(t, "secondbinary") {
+					if !t1ref.LegalCipher4(c4b, t1ref.ContBinary) {
+						c4b[0] = 0x80
+					}
+					sec.Write(encrypt([]byte(body), c4b))
+					sec.WriteByte('\n')
+				} else {
+					fmt.Fprintf(&sec, "%x\n", encrypt([]byte(body), c4b))
+				}
+				sec.WriteString("0000000000000000\ncleartomark\n/after2 2 def\n")
+				c.Second = sec.Bytes()
+				c.SecondPlain = []byte("systemdict begin " + strings.Replace(body, "currentfile closefile\n", "", 1) + " end\n0000000000000000\ncleartomark\n/after2 2 def\n")
+				c.Payloads = append(c.Payloads, []byte("\x80\x00(\xff)"))
+			}
 		}
 		if plainFails(c) {
 			rec.Excluded("plaintext program itself fails")
